@@ -277,7 +277,7 @@ def replay(ctx, payload):
     for t in trace:
         print("   %s %d 0x%x -> %s" % t)
     print("real code outcome:", end)
-    print("driver verdict:", res.get("raw")[:300])
+    print("driver verdict:", res.get("answer", "")[:300])
     print("unit afterwards:", state[:60])
     return res.get("post", "ok") != "ok" or res.get("sync") != "1" or \
         res.get("model", "").replace("~", " ") != end or extra is not None
